@@ -18,7 +18,7 @@ STATUS_SITES = {"H5Dcreate2": "id", "H5Dwrite": "status", "H5Dset_extent": "stat
                 "index_append": "idx"}
 KNOWN_EXTERNALS = FS_MUTATORS | FS_QUERIES | H5_MUTATING | H5_CLOSE | {
     "H5Sclose", "H5Pclose", "H5Aclose", "H5Tclose", "H5Aread", "H5Sselect_hyperslab", "H5Pset_chunk", "H5Pset_deflate", "H5Pset_filter",
-    "H5Pset_fill_value", "H5Pset_fill_time", "H5Pset_alloc_time", "H5Tinsert", "H5Tset_size", "H5check_version", "H5open", "H5Fopen", "H5Aopen", "H5Screate", "H5Screate_simple",
+    "H5Sget_simple_extent_dims", "H5Pset_fill_value", "H5Pset_fill_time", "H5Pset_alloc_time", "H5Tinsert", "H5Tset_size", "H5check_version", "H5open", "H5Fopen", "H5Aopen", "H5Screate", "H5Screate_simple",
     "H5Dget_space", "H5Pcreate", "H5Tcopy", "H5Tcreate", "H5Tget_class", "H5Tget_size", "H5Tget_order", "H5Tget_precision", "H5Tget_offset",
     "H5Tget_sign", "step_rejected", "step_io_failure", "step_ok", "loop_iterations"}
 
